@@ -347,6 +347,20 @@ def step (st : DSt) (toks : List String) : DSt × String :=
       (st, s!"{head} {showTrace tr} ## " ++ (match r with | .ok _ => "py:ok" | .error _ => "py:fail"))
     | some none => (st, "fail {} ## py:syntax")
     | none => (st, "bad-tree")
+  | "pyevl" :: _src :: tree =>
+    -- Python's evaluation on the logic pathway: the namespace additionally binds true / false; result is bool(value)
+    match parseTree tree with
+    | some (some e) =>
+      let env0 := scriptEnv st.seed
+      let lk : String → Val := fun n =>
+        if n = "true" then Val.bool true else (if n = "false" then Val.bool false else env0.lookup n)
+      let env' : Env := ⟨lk, env0.prim, env0.truthy, env0.apply, env0.tool⟩
+      let (tr, r) := (pyEval (st.T.names ++ ["true", "false"]) env' e).bind fun v =>
+        (truthyR env' v).bind fun b => R.pure (Val.bool b)
+      let head := match r with | .ok v => "ok:" ++ showVal v | .error _ => "fail"
+      (st, s!"{head} {showTrace tr} ## " ++ (match r with | .ok _ => "pyl:ok" | .error _ => "pyl:fail"))
+    | some none => (st, "fail {} ## py:syntax")
+    | none => (st, "bad-tree")
   | ["cmet", forced, len, raw, low] =>
     let (d, dtag) := detect (st.toolsLower.map (·.2)) (decodeCps raw) (decodeCps low)
     if natD len > st.cfg.maxLen then
